@@ -1,6 +1,7 @@
 package rules
 
 import (
+	"golang.org/x/tools/go/ssa"
 	"go/token"
 	"go/types"
 
@@ -130,11 +131,33 @@ func (rd *reader) remainingRule(rule string) {
 	nSkip := 0
 	c.explore(rule, rd.advance, core.Opts{Inline: rd.inl(), Unroll: 0, RecordLoads: true, Stop: func(x *core.Explorer, ev *core.Event) bool { return callsStatic(ev, rd.read) }}, func(p *core.Path) {
 		var skip *core.Event
+		discarded := false
 		for i := range p.Events {
 			ev := &p.Events[i]
 			if ev.Kind == core.EvCall && ev.Static != nil && extName(ev.Static) == "io.CopyN" {
 				skip = ev
 			}
+			// br.Discard(int(readRemaining)) where the path knows the bytes are already buffered (Discard then cannot fail)
+			if ev.Kind == core.EvCall && ev.Static != nil && extName(ev.Static) == "(*bufio.Reader).Discard" && len(ev.Args) == 2 && rd.usesBr(ev) {
+				if _, isR := fieldLoad(strip(ev.Args[1]), rd.readRemaining); isR {
+					buffered := hasLit(p, ev.NLits, false, func(t *core.Term) bool {
+						if t.Kind != core.KLt {
+							return false
+						}
+						_, isRem := fieldLoad(strip(t.Args[1]), rd.readRemaining)
+						b := strip(t.Args[0])
+						f, isF := b.Ref.(*ssa.Function)
+						return isRem && b.Kind == core.KCall && isF && extName(f) == "(*bufio.Reader).Buffered"
+					})
+					if buffered {
+						discarded = true
+					}
+				}
+			}
+		}
+		if discarded {
+			nSkip++
+			return
 		}
 		remPos := knowsGe(p, len(p.Lits), 1, func(y *core.Term) bool { _, isR := fieldLoad(y, rd.readRemaining); return isR })
 		if p.End == core.EndStop && remPos && skip == nil {
